@@ -113,6 +113,7 @@ func runC15(c *Ctx) {
 	}
 	r.Floor("leaf-case", len(collectors), 3, "collectors")
 	c15ResultSources(c, p)
+	c15KeyFromValue(c, p)
 	if len(collectors) < 5 {
 		return
 	}
@@ -571,4 +572,87 @@ func sameFieldValue(a, b ssa.Value) bool {
 		}
 	}
 	return false
+}
+
+// c15KeyFromValue: a collector map that stores a structured name (QualifiedName) must key the entry by the
+// whole name: a key computed from one field of the value makes distinct names (sales.orders, archive.orders)
+// collide, and the result loses entries.
+func c15KeyFromValue(c *Ctx, p *core.Prog) {
+	r := c.R
+	r.Rule("key-from-value", "where a collector stores a struct value in its map, the key is computed from the whole value (a method call on it such as String()), not from a single field of it")
+	n := 0
+	for _, fn := range p.SrcFuncs("pkg/gosqlx") {
+		seq := 0
+		for _, b := range fn.Blocks {
+			for _, in := range b.Instrs {
+				mu, ok := in.(*ssa.MapUpdate)
+				if !ok {
+					continue
+				}
+				vt := core.NamedOf(mu.Value.Type())
+				if vt == nil || core.StructOf(vt) == nil || vt.Obj().Pkg() == nil || !core.PathHasSuffix(vt.Obj().Pkg().Path(), "pkg/gosqlx") {
+					continue
+				}
+				n++
+				seq++
+				key := core.FnName(fn) + sprintf("|%s#%d", vt.Obj().Name(), seq)
+				// the storage the value lives in
+				var cell ssa.Value
+				if u, ok := mu.Value.(*ssa.UnOp); ok {
+					cell = u.X
+				}
+				whole := false
+				single := ""
+				var walk func(v ssa.Value, d int)
+				seen := map[ssa.Value]bool{}
+				walk = func(v ssa.Value, d int) {
+					if d > 6 || v == nil || seen[v] {
+						return
+					}
+					seen[v] = true
+					switch x := v.(type) {
+					case *ssa.Call:
+						for _, a := range x.Call.Args {
+							if a == mu.Value || (cell != nil && a == cell) {
+								whole = true
+							}
+							if u, ok := a.(*ssa.UnOp); ok && cell != nil && u.X == cell {
+								whole = true
+							}
+							walk(a, d+1)
+						}
+					case *ssa.UnOp:
+						if fa, ok := x.X.(*ssa.FieldAddr); ok && cell != nil && fa.X == cell {
+							single = core.FieldName(fa.X.Type(), fa.Field)
+							return
+						}
+						walk(x.X, d+1)
+					case *ssa.Field:
+						if x.X == mu.Value {
+							single = core.FieldName(x.X.Type(), x.Field)
+							return
+						}
+						walk(x.X, d+1)
+					case *ssa.BinOp:
+						walk(x.X, d+1)
+						walk(x.Y, d+1)
+					case *ssa.Phi:
+						for _, e := range x.Edges {
+							walk(e, d+1)
+						}
+					}
+				}
+				walk(mu.Key, 0)
+				switch {
+				case whole:
+					r.OK("key-from-value", key, p.Pos(mu.Pos()), "key computed from the whole value")
+				case single != "":
+					r.Violate("key-from-value", key, p.Pos(mu.Pos()), "the map entry is keyed by the value's field "+single+" alone: two different "+vt.Obj().Name()+" values with the same "+single+" overwrite each other, so one of the written names is missing from the result")
+				default:
+					r.OK("key-from-value", key, p.Pos(mu.Pos()), "key not derived from a single field of the value")
+				}
+			}
+		}
+	}
+	r.Extra("struct_valued_map_updates", n)
 }
